@@ -95,7 +95,7 @@ impl<'a> GlueMessage<'a> {
 
         let mut response_schemas_calls = interfaces.emit_response_schemas_calls(msg_ty, contract);
         response_schemas_calls
-            .push(quote! {<#contract as #sylvia ::types::ContractApi> :: #enum_accessor ::response_schemas_impl()});
+            .push(quote! {< <#contract as #sylvia ::types::ContractApi> :: #enum_accessor as #sylvia ::cw_schema::QueryResponses> ::response_schemas_impl()});
 
         let response_schemas = match msg_ty {
             MsgType::Query => {
